@@ -1,72 +1,166 @@
-(* C14: stacking with -1 padding, extraction, and the -1-skipping conversion to a networkx graph *)
+(* C14 — records and graphs: to_graph, Graph.stack / __getitem__ / __len__ / filter, EpisodeRecord.filter,
+   ExperimentRecord._padded_stack, to_networkx_graph.  Model only; proofs live in ConvertLaws.v.
+
+   Conventions: node names are integers (the harness numbers the names); a python dict is an association list in
+   canonical (sorted-by-key) order; a numpy array of rank 1 is a `list Z` (times are integers: ticks of the 1/64 s
+   lattice); a record / graph is polymorphic in its leaf type L so that the same definitions describe one episode
+   (L = arr) and a stacked object (L = list arr, one row per episode). *)
 From Coq Require Import List Arith ZArith Bool Lia.
 Import ListNotations.
 Open Scope Z_scope.
 
-Record vtx := { v_seq : Z; v_start : Z; v_end : Z }.
-Record edg := { e_out : Z; e_in : Z; e_recv : Z }.
-Definition padv := {| v_seq := -1; v_start := -1; v_end := -1 |}.
-Definition pade := {| e_out := -1; e_in := -1; e_recv := -1 |}.
+Definition arr := list Z.
 
+(* ---------------------------------------------------------------- one leaf: pad to the longest and stack *)
+(* Graph.stack._stack and ExperimentRecord._padded_stack._pad on one leaf position: every episode's array is padded at
+   the end of axis 0 with the fill value d up to the longest one.  X is the row type (Z for rank 1, a whole row for
+   higher ranks) *)
 Definition pad {X} (d : X) (n : nat) (l : list X) : list X := l ++ repeat d (n - length l).
 Definition maxlen {X} (ls : list (list X)) : nat := fold_right (fun l m => Nat.max (length l) m) 0%nat ls.
-(* Graph.stack on one leaf: pad every episode's array to the longest and stack *)
-Definition stack {X} (d : X) (ls : list (list X)) : list (list X) := map (pad d (maxlen ls)) ls.
+Definition stack_leaf {X} (d : X) (ls : list (list X)) : list (list X) := map (pad d (maxlen ls)) ls.
 
-Lemma maxlen_ge {X} (ls : list (list X)) l : In l ls -> (length l <= maxlen ls)%nat.
-Proof. induction ls as [|x ls IH]; [contradiction|]. intros [->|H]; simpl; [lia|specialize (IH H); lia]. Qed.
+(* ---------------------------------------------------------------- graphs *)
+(* Vertex(seq, ts_start, ts_end) and Edge(seq_out, seq_in, ts_recv) are both three leaves *)
+Record tri (L : Type) := T3 { f1 : L; f2 : L; f3 : L }.
+Arguments T3 {L}. Arguments f1 {L}. Arguments f2 {L}. Arguments f3 {L}.
+Definition vertex := tri.
+Definition edge := tri.
+Notation v_seq := f1 (only parsing). Notation v_start := f2 (only parsing). Notation v_end := f3 (only parsing).
+Notation e_out := f1 (only parsing). Notation e_in := f2 (only parsing). Notation e_recv := f3 (only parsing).
 
-(* an episode extracted from a stack is the original followed by padding only *)
-Theorem stack_rows {X} (d : X) ls i l : nth_error ls i = Some l ->
-  nth_error (stack d ls) i = Some (l ++ repeat d (maxlen ls - length l)).
-Proof. intros H. unfold stack. rewrite nth_error_map, H. reflexivity. Qed.
+Record graph (L : Type) := G { g_v : list (Z * vertex L); g_e : list ((Z * Z) * edge L) }.
+Arguments G {L}. Arguments g_v {L}. Arguments g_e {L}.
 
-(* to_networkx_graph: vertices with seq = -1 and edges with seq_out = -1 or seq_in = -1 are skipped *)
-Definition nx_vertices (vs : list vtx) : list vtx := filter (fun v => negb (v_seq v =? -1)) vs.
-Definition nx_edges (es : list edg) : list edg := filter (fun e => negb (e_out e =? -1) && negb (e_in e =? -1)) es.
+Definition tmap {L M} (f : L -> M) (t : tri L) : tri M := T3 (f (f1 t)) (f (f2 t)) (f (f3 t)).
+Definition mapk {K A B} (f : A -> B) (l : list (K * A)) : list (K * B) := map (fun p => (fst p, f (snd p))) l.
+Definition zipk {K A B C} (f : A -> B -> C) (l1 : list (K * A)) (l2 : list (K * B)) : list (K * C) :=
+  map (fun p => (fst (fst p), f (snd (fst p)) (snd (snd p)))) (combine l1 l2).
+(* jax.tree_util.tree_map f graph *)
+Definition gmap {L M} (f : L -> M) (g : graph L) : graph M := G (mapk (tmap f) (g_v g)) (mapk (tmap f) (g_e g)).
 
-Lemma filter_repeat_false {X} (p : X -> bool) d n : p d = false -> filter p (repeat d n) = [].
-Proof. intros H. induction n; simpl; [reflexivity|rewrite H; exact IHn]. Qed.
+Definition keys {L} (g : graph L) : list Z * list (Z * Z) := (map fst (g_v g), map fst (g_e g)).
+Definition keys_dec (a b : list Z * list (Z * Z)) : {a = b} + {a <> b}.
+Proof. repeat decide equality. Defined.
 
-(* padded entries never create or alter a vertex or an edge *)
-Theorem pad_creates_no_vertex vs n : nx_vertices (pad padv n vs) = nx_vertices vs.
-Proof. unfold nx_vertices, pad. rewrite filter_app, filter_repeat_false by reflexivity. apply app_nil_r. Qed.
-Theorem pad_creates_no_edge es n : nx_edges (pad pade n es) = nx_edges es.
-Proof. unfold nx_edges, pad. rewrite filter_app, filter_repeat_false by reflexivity. apply app_nil_r. Qed.
+(* jax.tree_util.tree_map(_stack, *graphs): collect, per leaf position, the column of the episodes' arrays ... *)
+Definition tcons {L} (t : tri L) (bt : tri (list L)) : tri (list L) := T3 (f1 t :: f1 bt) (f2 t :: f2 bt) (f3 t :: f3 bt).
+Definition gcons {L} (g : graph L) (bg : graph (list L)) : graph (list L) :=
+  G (zipk tcons (g_v g) (g_v bg)) (zipk tcons (g_e g) (g_e bg)).
+Fixpoint columns {L} (g0 : graph L) (r : list (graph L)) {struct r} : graph (list L) :=
+  match r with [] => gmap (fun l => [l]) g0 | g1 :: r' => gcons g0 (columns g1 r') end.
+Definition same_keys {L} (g0 : graph L) (r : list (graph L)) : bool :=
+  forallb (fun g => if keys_dec (keys g) (keys g0) then true else false) r.
+(* ... and pad/stack every column.  None: tree_map raises (no graph, or different dict structures) *)
+Definition stack (gs : list (graph arr)) : option (graph (list arr)) :=
+  match gs with
+  | [] => None
+  | g0 :: r => if same_keys g0 r then Some (gmap (stack_leaf (-1)) (columns g0 r)) else None
+  end.
+(* Graph.__getitem__ on a stacked graph (0 <= i < number of episodes) *)
+Definition get (i : nat) (bg : graph (list arr)) : graph arr := gmap (fun rows => nth i rows []) bg.
+(* Graph.__len__ on a stacked graph: shape[0] of the first vertex's seq *)
+Definition blen (bg : graph (list arr)) : nat := match g_v bg with nv :: _ => length (v_seq (snd nv)) | [] => 0%nat end.
 
-(* hence: the networkx graph of an episode taken out of a stack is the networkx graph of the original episode *)
-Theorem nx_get_stack_vertices ls i l : nth_error ls i = Some l ->
-  option_map nx_vertices (nth_error (stack padv ls) i) = Some (nx_vertices l).
-Proof. intros H. rewrite (stack_rows padv ls i l H). simpl. f_equal. apply (pad_creates_no_vertex l (maxlen ls)). Qed.
-Theorem nx_get_stack_edges ls i l : nth_error ls i = Some l ->
-  option_map nx_edges (nth_error (stack pade ls) i) = Some (nx_edges l).
-Proof. intros H. rewrite (stack_rows pade ls i l H). simpl. f_equal. apply (pad_creates_no_edge l (maxlen ls)). Qed.
+(* ---------------------------------------------------------------- episode records *)
+Record steps (L : Type) := St { s_eps : L; s_seq : L; s_start : L; s_end : L; s_delay : L }.
+Record msgs (L : Type) := Ms { m_out : L; m_in : L; m_sent : L; m_recv : L; m_delay : L }.
+Arguments St {L}. Arguments s_eps {L}. Arguments s_seq {L}. Arguments s_start {L}. Arguments s_end {L}. Arguments s_delay {L}.
+Arguments Ms {L}. Arguments m_out {L}. Arguments m_in {L}. Arguments m_sent {L}. Arguments m_recv {L}. Arguments m_delay {L}.
+(* NodeRecord: steps, the sender names listed in info.inputs, inputs keyed by the sender's name *)
+Record noderec (L : Type) := NR { r_steps : steps L; r_info_inputs : list Z; r_inputs : list (Z * msgs L) }.
+Arguments NR {L}. Arguments r_steps {L}. Arguments r_info_inputs {L}. Arguments r_inputs {L}.
+Definition episode (L : Type) := list (Z * noderec L).
 
-(* all rows of a stack have the same length: the result is a rectangular array *)
-Theorem stack_rectangular {X} (d : X) ls r : In r (stack d ls) -> length r = maxlen ls.
-Proof.
-  unfold stack. intros H. apply in_map_iff in H. destruct H as [l [<- Hl]].
-  unfold pad. rewrite app_length, repeat_length. pose proof (maxlen_ge ls l Hl). lia.
-Qed.
+Definition vertex_of {L} (s : steps L) : vertex L := T3 (s_seq s) (s_start s) (s_end s).
+Definition edge_of {L} (m : msgs L) : edge L := T3 (m_out m) (m_in m) (m_recv m).
+(* EpisodeRecord.to_graph *)
+Definition to_graph {L} (ep : episode L) : graph L :=
+  G (mapk (fun r => vertex_of (r_steps r)) ep)
+    (flat_map (fun nr => map (fun im => ((fst im, fst nr), edge_of (snd im))) (r_inputs (snd nr))) ep).
 
-(* ---- filtering to a subset of nodes ---- *)
+(* jax.tree_util.tree_map f episode_record (e.g. EpisodeRecord.__getitem__ maps x[val] over all leaves) *)
+Definition smap {L M} (f : L -> M) (s : steps L) : steps M := St (f (s_eps s)) (f (s_seq s)) (f (s_start s)) (f (s_end s)) (f (s_delay s)).
+Definition mmap {L M} (f : L -> M) (m : msgs L) : msgs M := Ms (f (m_out m)) (f (m_in m)) (f (m_sent m)) (f (m_recv m)) (f (m_delay m)).
+Definition nrmap {L M} (f : L -> M) (r : noderec L) : noderec M := NR (smap f (r_steps r)) (r_info_inputs r) (mapk (mmap f) (r_inputs r)).
+Definition epmap {L M} (f : L -> M) (ep : episode L) : episode M := mapk (nrmap f) ep.
+
+(* ---------------------------------------------------------------- filtering *)
+(* the `nodes` argument: node name -> that node object's `inputs` dict, as (input name, sender's name) pairs.  The input
+   name equals the sender's name unless the connection was made with a shadow `name=` *)
+Definition nodeset := list (Z * list (Z * Z)).
+Definition names (nodes : nodeset) : list Z := map fst nodes.
+Definition mem (x : Z) (l : list Z) : bool := existsb (Z.eqb x) l.
+Definition pair_eqb (a b : Z * Z) : bool := (fst a =? fst b) && (snd a =? snd b).
+Definition memp (x : Z * Z) (l : list (Z * Z)) : bool := existsb (pair_eqb x) l.
+
+(* which name of a connection the filters look up: the pinned code takes the key of `node.inputs` (the input name),
+   the property needs the sender's name (c.output_node.name) *)
+Definition key_pinned (c : Z * Z) : Z := fst c.
+Definition key_sender (c : Z * Z) : Z := snd c.
+
 Section Filter.
-Variable name : Type. Variable name_eqb : name -> name -> bool.
-Definition mem (x : name) (l : list name) := existsb (name_eqb x) l.
-(* Graph.filter(nodes, filter_edges=True): keep selected vertices, and the connections whose both ends are selected
-   and which are connections of the selected node objects *)
-Definition filter_graph {A B} (sel : list name) (conns : list (name * name))
-           (verts : list (name * A)) (edges : list ((name * name) * B)) :=
-  (filter (fun nv => mem (fst nv) sel) verts,
-   filter (fun e => mem (fst (fst e)) sel && mem (snd (fst e)) sel &&
-                    existsb (fun c => name_eqb (fst c) (fst (fst e)) && name_eqb (snd c) (snd (fst e))) conns) edges).
-Theorem filter_graph_vertices {A B} sel conns (verts : list (name * A)) (edges : list ((name * name) * B)) nv :
-  In nv (fst (filter_graph sel conns verts edges)) <-> In nv verts /\ mem (fst nv) sel = true.
-Proof. unfold filter_graph; simpl. apply filter_In. Qed.
-Theorem filter_graph_edges {A B} sel conns (verts : list (name * A)) (edges : list ((name * name) * B)) e :
-  In e (snd (filter_graph sel conns verts edges)) ->
-  In e edges /\ mem (fst (fst e)) sel = true /\ mem (snd (fst e)) sel = true.
-Proof. unfold filter_graph; simpl. intros H. apply filter_In in H. destruct H as [H1 H2].
-  apply andb_prop in H2. destruct H2 as [H2 _]. apply andb_prop in H2. tauto. Qed.
+Variable key : Z * Z -> Z.
+(* connections among the node objects (filter_edges / filter_connections = True) *)
+Definition conns_of_nodes (nodes : nodeset) : list (Z * Z) :=
+  flat_map (fun n => map (fun c => (key c, fst n)) (filter (fun c => mem (key c) (names nodes)) (snd n))) nodes.
+(* Graph.filter *)
+Definition graph_conns {L} (flag : bool) (nodes : nodeset) (g : graph L) : list (Z * Z) :=
+  if flag then conns_of_nodes nodes
+  else flat_map (fun n => if mem (fst n) (map fst (g_v g))
+                          then filter (fun k => (snd k =? fst n) && mem (fst k) (names nodes)) (map fst (g_e g)) else []) nodes.
+Definition graph_filter {L} (flag : bool) (nodes : nodeset) (g : graph L) : graph L :=
+  G (filter (fun nv => mem (fst nv) (names nodes)) (g_v g))
+    (filter (fun ke => memp (fst ke) (graph_conns flag nodes g)) (g_e g)).
+
+(* EpisodeRecord.filter (every selected name must be in the record, else KeyError: None) *)
+Fixpoint lookup {A} (n : Z) (l : list (Z * A)) : option A :=
+  match l with [] => None | (k, a) :: l' => if k =? n then Some a else lookup n l' end.
+Definition rec_conns {L} (flag : bool) (nodes : nodeset) (ep : episode L) : list (Z * Z) :=
+  if flag then conns_of_nodes nodes
+  else flat_map (fun n => match lookup (fst n) ep with
+                          | Some r => map (fun im => (fst im, fst n)) (filter (fun im => mem (fst im) (names nodes)) (r_inputs r))
+                          | None => [] end) nodes.
+Definition rec_filter_node {L} (cs : list (Z * Z)) (n2 : Z) (r : noderec L) : noderec L :=
+  let ins := filter (fun im => memp (fst im, n2) cs) (r_inputs r) in
+  NR (r_steps r) (map fst ins) ins.
+Definition rec_filter {L} (flag : bool) (nodes : nodeset) (ep : episode L) : option (episode L) :=
+  let cs := rec_conns flag nodes ep in
+  fold_right (fun n acc => match lookup (fst n) ep, acc with
+                           | Some r, Some l => Some ((fst n, rec_filter_node cs (fst n) r) :: l)
+                           | _, _ => None end) (Some []) nodes.
 End Filter.
-Print Assumptions nx_get_stack_vertices.
+
+(* ---------------------------------------------------------------- to_networkx_graph *)
+(* the sequence of G.add_node / G.add_edge calls made by rex.utils.to_networkx_graph (attributes restricted to the
+   ones the property speaks about: kind, seq, ts_start, ts_end, ts_recv) *)
+Inductive call :=
+| AddNode (kind seq ts_start ts_end : Z)
+| AddEdge (k1 s1 k2 s2 : Z) (ts_recv : option Z).
+Definition nx_skip_vertex (seq : Z) : bool := seq =? -1.
+Definition nx_stateful (seq : Z) : bool := 0 <? seq.
+Definition nx_skip_edge (seq_out seq_in : Z) : bool := (seq_out =? -1) || (seq_in =? -1).
+Definition nx_vertex_row (n : Z) (x : Z * (Z * Z)) : list call :=
+  let s := fst x in
+  if nx_skip_vertex s then []
+  else AddNode n s (fst (snd x)) (snd (snd x)) :: (if nx_stateful s then [AddEdge n (s - 1) n s None] else []).
+Definition nx_edge_row (k : Z * Z) (x : Z * (Z * Z)) : list call :=
+  if nx_skip_edge (fst x) (fst (snd x)) then [] else [AddEdge (fst k) (fst x) (snd k) (fst (snd x)) (Some (snd (snd x)))].
+Definition rows (t : tri arr) : list (Z * (Z * Z)) := combine (f1 t) (combine (f2 t) (f3 t)).   (* python zip *)
+Definition nx (g : graph arr) : list call :=
+  flat_map (fun nv => flat_map (nx_vertex_row (fst nv)) (rows (snd nv))) (g_v g) ++
+  flat_map (fun ke => flat_map (nx_edge_row (fst ke)) (rows (snd ke))) (g_e g).
+
+(* ---------------------------------------------------------------- relations used by the statements *)
+(* l' is l followed by -1 entries only *)
+Definition padl (l' l : arr) : Prop := exists n, l' = l ++ repeat (-1) n.
+Definition tpad (t' t : tri arr) : Prop := padl (f1 t') (f1 t) /\ padl (f2 t') (f2 t) /\ padl (f3 t') (f3 t).
+Definition padded_of (g' g : graph arr) : Prop :=
+  Forall2 (fun a b => fst a = fst b /\ tpad (snd a) (snd b)) (g_v g') (g_v g) /\
+  Forall2 (fun a b => fst a = fst b /\ tpad (snd a) (snd b)) (g_e g') (g_e g).
+(* the three arrays of every vertex / edge have one length *)
+Definition twf (t : tri arr) : Prop := length (f1 t) = length (f2 t) /\ length (f2 t) = length (f3 t).
+Definition gwf (g : graph arr) : Prop := Forall (fun nv => twf (snd nv)) (g_v g) /\ Forall (fun ke => twf (snd ke)) (g_e g).
+(* node object n2 has a connection whose sender is n1 *)
+Definition connected (nodes : nodeset) (n1 n2 : Z) : Prop :=
+  exists ins c, In (n2, ins) nodes /\ In c ins /\ snd c = n1.
+Definition no_shadow (nodes : nodeset) : Prop := forall n c, In n nodes -> In c (snd n) -> fst c = snd c.
